@@ -1,7 +1,7 @@
 /-
 C06 helper lemmas, part A: rational semantics of `Dec`, exactness of `+ - *` under the
 34-digit hypothesis, the kind rule, comparison as a total order consistent with the value.
-Core Lean (`Rat` is core); single Mathlib modules may be imported here if really needed.
+Core Lean (`Rat` is core); no Mathlib.
 -/
 import CueVerif.Model.DecArith
 import CueVerif.Spec.Arith
@@ -21,46 +21,483 @@ def WF (n : Num) : Prop := n.k = .int → 0 ≤ n.d.exp
 
 /-! #### rational semantics of the exact operations -/
 
-theorem toRat_exact (op : AOp) (a b : Dec) :
-    toRat (exact op a b) = specOp (aop op) (toRat a) (toRat b) := by sorry
+theorem ten_ne : (10 : Rat) ≠ 0 := by decide
 
-theorem toRat_neg (a : Dec) : toRat (Dec.neg a) = - toRat a := by sorry
+theorem tenz_pos (e : Int) : (0 : Rat) < (10 : Rat) ^ e := Rat.zpow_pos (by decide)
+
+/-- bridge to the integer model: the value at any exponent below `d.exp` -/
+theorem toRat_shift (d : Dec) (e : Int) (h : e ≤ d.exp) :
+    toRat d = (Dec.shift d e : Rat) * (10 : Rat) ^ e := by
+  unfold toRat Dec.shift
+  have h1 : d.exp = ((d.exp - e).toNat : Int) + e := by omega
+  generalize (d.exp - e).toNat = n at h1
+  rw [h1, Rat.zpow_add ten_ne, Rat.zpow_natCast, Rat.intCast_mul, Rat.intCast_pow]
+  simp [Rat.mul_assoc]
+
+theorem toRat_mk (c e : Int) : toRat ⟨c, e⟩ = (c : Rat) * (10 : Rat) ^ e := rfl
+
+theorem toRat_add (a b : Dec) : toRat (Dec.add a b) = toRat a + toRat b := by
+  have ha : min a.exp b.exp ≤ a.exp := by omega
+  have hb : min a.exp b.exp ≤ b.exp := by omega
+  rw [toRat_shift a _ ha, toRat_shift b _ hb]
+  simp only [Dec.add, toRat_mk, Rat.intCast_add, Rat.add_mul]
+
+theorem toRat_sub (a b : Dec) : toRat (Dec.sub a b) = toRat a - toRat b := by
+  have ha : min a.exp b.exp ≤ a.exp := by omega
+  have hb : min a.exp b.exp ≤ b.exp := by omega
+  rw [toRat_shift a _ ha, toRat_shift b _ hb]
+  simp only [Dec.sub, toRat_mk, Rat.intCast_sub]
+  grind
+
+theorem toRat_mul (a b : Dec) : toRat (Dec.mul a b) = toRat a * toRat b := by
+  simp only [Dec.mul, toRat, Rat.intCast_mul, Rat.zpow_add ten_ne]
+  grind
+
+theorem toRat_exact (op : AOp) (a b : Dec) :
+    toRat (exact op a b) = specOp (aop op) (toRat a) (toRat b) := by
+  cases op
+  · exact toRat_add a b
+  · exact toRat_sub a b
+  · exact toRat_mul a b
+
+theorem toRat_neg (a : Dec) : toRat (Dec.neg a) = - toRat a := by
+  simp only [Dec.neg, toRat, Rat.intCast_neg]
+  grind
 
 /-- comparison agrees with the order of the values -/
-theorem cmp_lt_iff (a b : Dec) : Dec.cmp a b = .lt ↔ toRat a < toRat b := by sorry
-theorem cmp_eq_iff (a b : Dec) : Dec.cmp a b = .eq ↔ toRat a = toRat b := by sorry
-theorem cmp_gt_iff (a b : Dec) : Dec.cmp a b = .gt ↔ toRat b < toRat a := by sorry
+theorem cmp_lt_iff (a b : Dec) : Dec.cmp a b = .lt ↔ toRat a < toRat b := by
+  have ha : min a.exp b.exp ≤ a.exp := by omega
+  have hb : min a.exp b.exp ≤ b.exp := by omega
+  rw [toRat_shift a _ ha, toRat_shift b _ hb, Rat.mul_lt_mul_right (tenz_pos _),
+    Rat.intCast_lt_intCast, Dec.cmp, Int.compare_eq_lt]
 
-/-! #### rounding -/
+theorem cmp_gt_iff (a b : Dec) : Dec.cmp a b = .gt ↔ toRat b < toRat a := by
+  have ha : min a.exp b.exp ≤ a.exp := by omega
+  have hb : min a.exp b.exp ≤ b.exp := by omega
+  rw [toRat_shift a _ ha, toRat_shift b _ hb, Rat.mul_lt_mul_right (tenz_pos _),
+    Rat.intCast_lt_intCast, Dec.cmp, Int.compare_eq_gt]
 
-/-- rounding a value that needs at most `p` digits changes nothing (and is not flagged) -/
-theorem round_of_fits (p : Nat) (d : Dec) (h : Fits p d) :
-    toRat (round p d).1 = toRat d ∧ (round p d).2 = false := by sorry
+theorem cmp_eq_iff (a b : Dec) : Dec.cmp a b = .eq ↔ toRat a = toRat b := by
+  constructor
+  · intro h
+    have ha : min a.exp b.exp ≤ a.exp := by omega
+    have hb : min a.exp b.exp ≤ b.exp := by omega
+    rw [toRat_shift a _ ha, toRat_shift b _ hb]
+    rw [Dec.cmp, Int.compare_eq_eq] at h
+    rw [h]
+  · intro h
+    cases hc : Dec.cmp a b
+    · have := (cmp_lt_iff a b).1 hc
+      rw [h] at this; exact absurd this (Rat.lt_irrefl)
+    · rfl
+    · have := (cmp_gt_iff a b).1 hc
+      rw [h] at this; exact absurd this (Rat.lt_irrefl)
 
-/-- the Inexact flag is exact: it is raised iff the value changed -/
-theorem round_flag (p : Nat) (d : Dec) :
-    (round p d).2 = false ↔ toRat (round p d).1 = toRat d := by sorry
 
-/-- rounding is correct: the result is within half a unit in the last place -/
-theorem round_isRounding (p : Nat) (d : Dec) : IsRounding p (round p d).1 (toRat d) := by sorry
+/-- comparison of numbers is comparison of the exact values, whatever the kinds -/
+theorem cmp_num (op : COp) (x y : Num) :
+    cmpOp op (.num x) (.num y) = .bool (specCmp (cop op) (toRat x.d) (toRat y.d)) := by
+  have h1 := cmp_lt_iff x.d y.d
+  have h2 := cmp_eq_iff x.d y.d
+  have h3 := cmp_gt_iff x.d y.d
+  generalize toRat x.d = ra at *
+  generalize toRat y.d = rb at *
+  simp only [cmpOp]
+  congr 1
+  cases hc : Dec.cmp x.d y.d <;> simp [hc] at h1 h2 h3 <;> cases op <;>
+    simp [cmpTonode, specCmp, cop] <;> grind
 
-/-! #### the property-level statements -/
+/-- shape of a successful `numOp` -/
+theorem numOp_eq (op : AOp) (x y r : Num) (h : numOp op x y = .num r) :
+    r = ⟨kindAnd x.k y.k, (round34 (exact op x.d y.d)).1⟩ ∧ alignOk op x.d y.d = true ∧
+      inWindow (round34 (exact op x.d y.d)).1 = true := by
+  unfold numOp at h
+  split at h
+  · cases h
+  · simp only at h
+    split at h
+    · cases h
+    · cases h
+      simp_all
 
-/-- `+ - *` are exact whenever the exact result has at most 34 significant digits -/
-theorem arith_exact (op : AOp) (x y r : Num) (h : numOp op x y = .num r)
-    (hf : FitsVal prec (specOp (aop op) (toRat x.d) (toRat y.d))) :
-    toRat r.d = specOp (aop op) (toRat x.d) (toRat y.d) := by sorry
-
-/-- in general the result is the correctly rounded exact result -/
-theorem arith_rounded (op : AOp) (x y r : Num) (h : numOp op x y = .num r) :
-    IsRounding prec r.d (specOp (aop op) (toRat x.d) (toRat y.d)) := by sorry
+/-- result kind: int exactly when both operands are ints -/
+theorem kind_rule (op : AOp) (x y r : Num) (h : numOp op x y = .num r) :
+    (r.k = .int ↔ (x.k = .int ∧ y.k = .int)) := by
+  rw [(numOp_eq op x y r h).1]
+  cases x.k <;> cases y.k <;> simp [kindAnd]
 
 /-- `numOp` yields a number or the `failed arithmetic` error, and the error only when the
 operands or the result leave the exponent window -/
 theorem arith_total (op : AOp) (x y : Num) :
     (∃ r, numOp op x y = .num r) ∨
       (numOp op x y = .err .failed ∧
-        (alignOk op x.d y.d = false ∨ inWindow (round34 (exact op x.d y.d)).1 = false)) := by sorry
+        (alignOk op x.d y.d = false ∨ inWindow (round34 (exact op x.d y.d)).1 = false)) := by
+  unfold numOp
+  cases h1 : alignOk op x.d y.d
+  · simp
+  · cases h2 : inWindow (round34 (exact op x.d y.d)).1
+    · simp [h2]
+    · simp [h2]
+
+/-! #### bytewise order on strings and bytes -/
+
+theorem bytesCmp_eq_iff (a b : List Nat) : bytesCmp a b = .eq ↔ a = b := by
+  induction a generalizing b with
+  | nil => cases b <;> simp [bytesCmp]
+  | cons x xs ih =>
+    cases b with
+    | nil => simp [bytesCmp]
+    | cons y ys =>
+      simp only [bytesCmp]
+      split
+      · simp; omega
+      · split
+        · simp; omega
+        · rw [ih]; simp; omega
+
+theorem bytesCmp_swap (a b : List Nat) : bytesCmp a b = .lt ↔ bytesCmp b a = .gt := by
+  induction a generalizing b with
+  | nil => cases b <;> simp [bytesCmp]
+  | cons x xs ih =>
+    cases b with
+    | nil => simp [bytesCmp]
+    | cons y ys =>
+      simp only [bytesCmp]
+      by_cases h1 : x < y
+      · have : ¬ y < x := by omega
+        simp [h1, this]
+      · by_cases h2 : y < x
+        · simp [h1, h2]
+        · simp [h1, h2, ih]
+
+/-- it is the lexicographic order of the byte sequences -/
+theorem bytesCmp_lt_iff (a b : List Nat) : bytesCmp a b = .lt ↔ a < b := by
+  induction a generalizing b with
+  | nil => cases b <;> simp [bytesCmp]
+  | cons x xs ih =>
+    cases b with
+    | nil => simp [bytesCmp]
+    | cons y ys =>
+      simp only [bytesCmp, List.cons_lt_cons_iff]
+      by_cases h1 : x < y
+      · simp [h1]
+      · by_cases h2 : y < x
+        · simp [h1, h2]; omega
+        · have : x = y := by omega
+          subst this
+          simp [ih]
+
+theorem bytesCmp_trans (a b c : List Nat) (h1 : bytesCmp a b = .lt) (h2 : bytesCmp b c = .lt) :
+    bytesCmp a c = .lt := by
+  rw [bytesCmp_lt_iff] at *
+  exact List.lt_trans h1 h2
+
+
+/-! #### `numDigits`: `10^(nd-1) ≤ n < 10^nd` -/
+theorem numDigitsAux_spec : ∀ fuel n, n ≤ fuel →
+    1 ≤ Dec.numDigitsAux fuel n ∧ n < 10 ^ Dec.numDigitsAux fuel n ∧
+      (0 < n → 10 ^ (Dec.numDigitsAux fuel n - 1) ≤ n) := by
+  intro fuel
+  induction fuel with
+  | zero =>
+    intro n h
+    have : n = 0 := by omega
+    subst this
+    simp [Dec.numDigitsAux]
+  | succ f ih =>
+    intro n h
+    simp only [Dec.numDigitsAux]
+    split
+    · refine ⟨by omega, by omega, fun h => by simp; omega⟩
+    · rename_i h10
+      have hle : n / 10 ≤ f := by omega
+      obtain ⟨i1, i2, i3⟩ := ih (n / 10) hle
+      generalize Dec.numDigitsAux f (n / 10) = a at *
+      refine ⟨by omega, ?_, fun _ => ?_⟩
+      · rw [Nat.add_comm, Nat.pow_succ]
+        omega
+      · have := i3 (by omega)
+        have e : 1 + a - 1 = (a - 1) + 1 := by omega
+        rw [e, Nat.pow_succ]
+        omega
+
+theorem numDigits_pos (n : Nat) : 1 ≤ Dec.numDigits n := (numDigitsAux_spec n n (Nat.le_refl _)).1
+theorem numDigits_lt (n : Nat) : n < 10 ^ Dec.numDigits n := (numDigitsAux_spec n n (Nat.le_refl _)).2.1
+theorem numDigits_le (n : Nat) (h : 0 < n) : 10 ^ (Dec.numDigits n - 1) ≤ n :=
+  (numDigitsAux_spec n n (Nat.le_refl _)).2.2 h
+
+theorem ten_dvd_of_carry (q : Nat) (h : Dec.numDigits q < Dec.numDigits (q + 1)) : 10 ∣ q + 1 := by
+  have h1 := numDigits_lt q
+  have h2 := numDigits_le (q + 1) (by omega)
+  have h3 := numDigits_pos q
+  have h4 : 10 ^ Dec.numDigits q ≤ 10 ^ (Dec.numDigits (q + 1) - 1) :=
+    Nat.pow_le_pow_right (by decide) (by omega)
+  have h5 : q + 1 = 10 ^ Dec.numDigits q := by omega
+  rw [h5]
+  have e : Dec.numDigits q = (Dec.numDigits q - 1) + 1 := by omega
+  rw [e, Nat.pow_succ]
+  exact Nat.dvd_mul_left _ _
+
+
+/-! #### rounding -/
+theorem sgnMul_natAbs (c : Int) : sgnMul (decide (c < 0)) c.natAbs = c := by
+  unfold sgnMul
+  by_cases h : c < 0 <;> simp [h] <;> omega
+
+theorem round_le (p : Nat) (d : Dec) (h : Dec.numDigits d.coeff.natAbs ≤ p) :
+    round p d = (d, false) := by
+  unfold round
+  simp only []
+  rw [if_pos h]
+
+/-- explicit form when digits are dropped -/
+theorem round_gt (p : Nat) (d : Dec) (h : ¬ Dec.numDigits d.coeff.natAbs ≤ p) :
+    ∃ q2 k2 : Nat,
+      round p d = (⟨sgnMul (decide (d.coeff < 0)) q2, d.exp + (k2 : Int)⟩,
+        d.coeff.natAbs % 10 ^ (Dec.numDigits d.coeff.natAbs - p) != 0) ∧
+      Dec.numDigits d.coeff.natAbs - p ≤ k2 ∧
+      q2 ≤ (if 10 ^ (Dec.numDigits d.coeff.natAbs - p) ≤
+              2 * (d.coeff.natAbs % 10 ^ (Dec.numDigits d.coeff.natAbs - p))
+            then d.coeff.natAbs / 10 ^ (Dec.numDigits d.coeff.natAbs - p) + 1
+            else d.coeff.natAbs / 10 ^ (Dec.numDigits d.coeff.natAbs - p)) ∧
+      q2 * 10 ^ k2 =
+        (if 10 ^ (Dec.numDigits d.coeff.natAbs - p) ≤
+              2 * (d.coeff.natAbs % 10 ^ (Dec.numDigits d.coeff.natAbs - p))
+            then d.coeff.natAbs / 10 ^ (Dec.numDigits d.coeff.natAbs - p) + 1
+            else d.coeff.natAbs / 10 ^ (Dec.numDigits d.coeff.natAbs - p)) *
+          10 ^ (Dec.numDigits d.coeff.natAbs - p) := by
+  unfold round
+  simp only []
+  rw [if_neg h]
+  generalize Dec.numDigits d.coeff.natAbs - p = k
+  generalize d.coeff.natAbs = m
+  by_cases hup : 10 ^ k ≤ 2 * (m % 10 ^ k)
+  · simp only [hup, decide_true, if_true, Bool.true_and]
+    by_cases hc : Dec.numDigits (m / 10 ^ k) < Dec.numDigits (m / 10 ^ k + 1)
+    · simp only [hc, decide_true, if_true]
+      refine ⟨(m / 10 ^ k + 1) / 10, k + 1, ?_, by omega, Nat.div_le_self _ _, ?_⟩
+      · simp
+      · have := ten_dvd_of_carry _ hc
+        rw [Nat.pow_succ, ← Nat.mul_assoc, Nat.mul_comm _ 10, ← Nat.mul_assoc,
+          Nat.mul_comm 10, Nat.div_mul_cancel this]
+    · simp only [hc, decide_false]
+      exact ⟨m / 10 ^ k + 1, k, by simp, Nat.le_refl _, Nat.le_refl _, rfl⟩
+  · simp only [hup, decide_false, if_false, Bool.false_and]
+    exact ⟨m / 10 ^ k, k, by simp, Nat.le_refl _, Nat.le_refl _, rfl⟩
+
+
+theorem round_form (p : Nat) (d : Dec) :
+    ∃ q2 k2 : Nat,
+      (round p d).1 = ⟨sgnMul (decide (d.coeff < 0)) q2, d.exp + (k2 : Int)⟩ ∧
+      q2 ≤ 10 ^ p ∧
+      2 * (q2 * 10 ^ k2) ≤ 2 * d.coeff.natAbs + 10 ^ k2 ∧
+      2 * d.coeff.natAbs ≤ 2 * (q2 * 10 ^ k2) + 10 ^ k2 ∧
+      ((round p d).2 = false ↔ q2 * 10 ^ k2 = d.coeff.natAbs) := by
+  by_cases h : Dec.numDigits d.coeff.natAbs ≤ p
+  · refine ⟨d.coeff.natAbs, 0, ?_, ?_, by omega, by omega, ?_⟩
+    · rw [round_le p d h, sgnMul_natAbs]; simp
+    · have := numDigits_lt d.coeff.natAbs
+      have := Nat.pow_le_pow_right (n := 10) (by decide) h
+      omega
+    · rw [round_le p d h]; simp
+  · obtain ⟨q2, k2, e, hk, hq, hM⟩ := round_gt p d h
+    refine ⟨q2, k2, by rw [e], ?_⟩
+    rw [e, hM]
+    have hlt := numDigits_lt d.coeff.natAbs
+    have hnd : Dec.numDigits d.coeff.natAbs = p + (Dec.numDigits d.coeff.natAbs - p) := by omega
+    rw [hnd, Nat.pow_add] at hlt
+    generalize Dec.numDigits d.coeff.natAbs - p = k at *
+    generalize d.coeff.natAbs = m at *
+    have hT : 0 < 10 ^ k := Nat.pow_pos (by decide)
+    have hTT : 10 ^ k ≤ 10 ^ k2 := Nat.pow_le_pow_right (by decide) hk
+    have hdm := Nat.div_add_mod m (10 ^ k)
+    have hr := Nat.mod_lt m hT
+    have hqlt : m / 10 ^ k < 10 ^ p := (Nat.div_lt_iff_lt_mul hT).2 hlt
+    rw [Nat.mul_comm] at hdm
+    generalize 10 ^ k2 = T2 at *
+    generalize 10 ^ p = P at *
+    by_cases hup : 10 ^ k ≤ 2 * (m % 10 ^ k)
+    · simp only [hup, if_true] at hq ⊢
+      rw [Nat.add_mul, Nat.one_mul]
+      generalize m / 10 ^ k * 10 ^ k = A at *
+      generalize m / 10 ^ k = q at *
+      generalize m % 10 ^ k = r at *
+      generalize 10 ^ k = T at *
+      refine ⟨by omega, by omega, by omega, ?_⟩
+      simp; omega
+    · simp only [hup, if_false] at hq ⊢
+      generalize m / 10 ^ k * 10 ^ k = A at *
+      generalize m / 10 ^ k = q at *
+      generalize m % 10 ^ k = r at *
+      generalize 10 ^ k = T at *
+      refine ⟨by omega, by omega, by omega, ?_⟩
+      simp; omega
+
+
+theorem sgnMul_mul (neg : Bool) (a b : Nat) : sgnMul neg (a * b) = sgnMul neg a * (b : Int) := by
+  unfold sgnMul
+  cases neg <;> simp [Int.neg_mul]
+
+theorem toRat_sgn (neg : Bool) (q2 k2 : Nat) (e : Int) :
+    toRat ⟨sgnMul neg q2, e + (k2 : Int)⟩ = ((sgnMul neg (q2 * 10 ^ k2) : Int) : Rat) * (10 : Rat) ^ e := by
+  rw [toRat_shift ⟨sgnMul neg q2, e + (k2 : Int)⟩ e (by simp only []; omega)]
+  congr 2
+  simp only [Dec.shift]
+  have : (e + (k2 : Int) - e).toNat = k2 := by omega
+  rw [this, sgnMul_mul]
+  simp
+
+theorem tenz_add_nat (e : Int) (k : Nat) :
+    (10 : Rat) ^ (e + (k : Int)) = (((10 : Int) ^ k : Int) : Rat) * (10 : Rat) ^ e := by
+  rw [Rat.zpow_add ten_ne, Rat.zpow_natCast, Rat.intCast_pow, Rat.mul_comm]
+  rfl
+
+theorem scale_le (A B C : Int) (E : Rat) (hE : 0 ≤ E) (h : 2 * (A - B) ≤ C) :
+    2 * ((A : Rat) * E - (B : Rat) * E) ≤ (C : Rat) * E := by
+  have h1 : ((2 * (A - B) : Int) : Rat) ≤ (C : Rat) := Rat.intCast_le_intCast.2 h
+  have h2 := Rat.mul_le_mul_of_nonneg_right h1 hE
+  simp only [Rat.intCast_mul, Rat.intCast_sub] at h2
+  have e : 2 * ((A : Rat) * E - (B : Rat) * E) = ((2 : Int) : Rat) * ((A : Rat) - (B : Rat)) * E := by
+    have : ((2 : Int) : Rat) = 2 := rfl
+    rw [this]; grind
+  rw [e]; exact h2
+
+/-- rounding is correct: the result is within half a unit in the last place -/
+theorem round_isRounding (p : Nat) (d : Dec) : IsRounding p (round p d).1 (toRat d) := by
+  obtain ⟨q2, k2, e, hq, h1, h2, -⟩ := round_form p d
+  rw [e]
+  have hd : toRat d = ((sgnMul (decide (d.coeff < 0)) d.coeff.natAbs : Int) : Rat) * (10 : Rat) ^ d.exp := by
+    rw [sgnMul_natAbs]; rfl
+  unfold IsRounding
+  rw [toRat_sgn, hd]
+  simp only []
+  rw [tenz_add_nat]
+  generalize q2 * 10 ^ k2 = M at *
+  generalize d.coeff.natAbs = m at *
+  have hT : ((10 : Int) ^ k2) = ((10 ^ k2 : Nat) : Int) := by simp
+  rw [hT]
+  generalize 10 ^ k2 = T at *
+  refine ⟨?_, ?_, ?_⟩
+  · unfold sgnMul; split <;> omega
+  · apply scale_le _ _ _ _ (Rat.le_of_lt (tenz_pos _))
+    unfold sgnMul; split <;> omega
+  · apply scale_le _ _ _ _ (Rat.le_of_lt (tenz_pos _))
+    unfold sgnMul; split <;> omega
+
+theorem rat_mul_right_cancel {a b E : Rat} (hE : E ≠ 0) (h : a * E = b * E) : a = b := by
+  rw [← Rat.mul_div_cancel (a := a) hE, h, Rat.mul_div_cancel hE]
+
+/-- the Inexact flag is exact: it is raised iff the value changed -/
+theorem round_flag (p : Nat) (d : Dec) :
+    (round p d).2 = false ↔ toRat (round p d).1 = toRat d := by
+  obtain ⟨q2, k2, e, -, -, -, hf⟩ := round_form p d
+  rw [hf, e]
+  have hd : toRat d = ((sgnMul (decide (d.coeff < 0)) d.coeff.natAbs : Int) : Rat) * (10 : Rat) ^ d.exp := by
+    rw [sgnMul_natAbs]; rfl
+  rw [toRat_sgn, hd]
+  generalize q2 * 10 ^ k2 = M at *
+  generalize d.coeff.natAbs = m at *
+  constructor
+  · intro h; rw [h]
+  · intro h
+    have h' := Rat.intCast_inj.1 (rat_mul_right_cancel (Rat.ne_of_gt (tenz_pos d.exp)) h)
+    revert h'
+    unfold sgnMul; split <;> omega
+
+
+theorem round_snd_of_fits (p : Nat) (d : Dec) (h : Fits p d) : (round p d).2 = false := by
+  by_cases hnd : Dec.numDigits d.coeff.natAbs ≤ p
+  · rw [round_le p d hnd]
+  · obtain ⟨q2, k2, e, -⟩ := round_gt p d hnd
+    rw [e]
+    obtain ⟨c, j, hc, hcj⟩ := h
+    have hm : d.coeff.natAbs = c.natAbs * 10 ^ j := by
+      rw [hcj, Int.natAbs_mul, Int.natAbs_pow]; rfl
+    suffices hs : d.coeff.natAbs % 10 ^ (Dec.numDigits d.coeff.natAbs - p) = 0 by simp [hs]
+    by_cases h0 : d.coeff.natAbs = 0
+    · rw [h0]; simp
+    · have hle := numDigits_le d.coeff.natAbs (by omega)
+      have hlt : d.coeff.natAbs < 10 ^ (p + j) := by
+        rw [hm, Nat.pow_add]
+        exact Nat.mul_lt_mul_of_pos_right hc (Nat.pow_pos (by decide))
+      have hkj : Dec.numDigits d.coeff.natAbs - p ≤ j := by
+        apply Decidable.byContradiction
+        intro hn
+        have := Nat.pow_le_pow_right (n := 10) (by decide)
+          (show p + j ≤ Dec.numDigits d.coeff.natAbs - 1 by omega)
+        omega
+      apply Nat.mod_eq_zero_of_dvd
+      refine Nat.dvd_trans (Nat.pow_dvd_pow 10 hkj) ?_
+      rw [hm]
+      exact Nat.dvd_mul_left _ _
+
+/-- rounding a value that needs at most `p` digits changes nothing (and is not flagged) -/
+theorem round_of_fits (p : Nat) (d : Dec) (h : Fits p d) :
+    toRat (round p d).1 = toRat d ∧ (round p d).2 = false :=
+  ⟨(round_flag p d).1 (round_snd_of_fits p d h), round_snd_of_fits p d h⟩
+
+/-- `Fits` depends only on the value -/
+theorem fits_of_eq (p : Nat) (c : Int) (j : Nat) (x : Int) (b : Nat) (hc : c.natAbs < 10 ^ p)
+    (h : c * 10 ^ j = x * 10 ^ b) : ∃ (c' : Int) (j' : Nat), c'.natAbs < 10 ^ p ∧ x = c' * 10 ^ j' := by
+  by_cases hbj : b ≤ j
+  · refine ⟨c, j - b, hc, ?_⟩
+    have e : j = (j - b) + b := by omega
+    rw [e, Int.pow_add, ← Int.mul_assoc] at h
+    exact (Int.eq_of_mul_eq_mul_right (Int.ne_of_gt (Dec.ten_pow_pos b)) h).symm
+  · refine ⟨x, 0, ?_, by simp⟩
+    have e : b = (b - j) + j := by omega
+    rw [e, Int.pow_add, ← Int.mul_assoc] at h
+    have h' := Int.eq_of_mul_eq_mul_right (Int.ne_of_gt (Dec.ten_pow_pos j)) h
+    rw [h', Int.natAbs_mul, Int.natAbs_pow] at hc
+    have : 0 < (10 : Int).natAbs ^ (b - j) := Nat.pow_pos (by decide)
+    generalize (10 : Int).natAbs ^ (b - j) = T at *
+    have : x.natAbs * 1 ≤ x.natAbs * T := Nat.mul_le_mul_left _ (by omega)
+    omega
+
+theorem fits_of_toRat_eq (p : Nat) (d' d : Dec) (hf : Fits p d') (h : toRat d' = toRat d) :
+    Fits p d := by
+  obtain ⟨c, j, hc, hcj⟩ := hf
+  have := (cmp_eq_iff d' d).2 h
+  rw [Dec.cmp, Int.compare_eq_eq] at this
+  simp only [Dec.shift] at this
+  rw [hcj, Int.mul_assoc, ← Int.pow_add] at this
+  exact fits_of_eq p c _ d.coeff _ hc this
+
+/-- `+ - *` are exact whenever the exact result has at most 34 significant digits -/
+theorem arith_exact (op : AOp) (x y r : Num) (h : numOp op x y = .num r)
+    (hf : FitsVal prec (specOp (aop op) (toRat x.d) (toRat y.d))) :
+    toRat r.d = specOp (aop op) (toRat x.d) (toRat y.d) := by
+  rw [(numOp_eq op x y r h).1]
+  obtain ⟨d', hd', hv⟩ := hf
+  rw [← toRat_exact] at hv ⊢
+  exact (round_of_fits prec _ (fits_of_toRat_eq prec d' _ hd' hv)).1
+
+/-- in general the result is the correctly rounded exact result -/
+theorem arith_rounded (op : AOp) (x y r : Num) (h : numOp op x y = .num r) :
+    IsRounding prec r.d (specOp (aop op) (toRat x.d) (toRat y.d)) := by
+  rw [(numOp_eq op x y r h).1, ← toRat_exact]
+  exact round_isRounding prec _
+
+theorem round_exp_ge (p : Nat) (d : Dec) : d.exp ≤ (round p d).1.exp := by
+  obtain ⟨q2, k2, e, -⟩ := round_form p d
+  rw [e]; simp only []; omega
+
+theorem exact_exp_nonneg (op : AOp) (a b : Dec) (ha : 0 ≤ a.exp) (hb : 0 ≤ b.exp) :
+    0 ≤ (exact op a b).exp := by
+  cases op <;> simp only [exact, Dec.add, Dec.sub, Dec.mul] <;> omega
+
+/-- int op int is an int: kind int, non-negative exponent (so `WF`), integral value -/
+theorem int_closed (op : AOp) (x y r : Num) (hx : WF x) (hy : WF y)
+    (kx : x.k = .int) (ky : y.k = .int) (h : numOp op x y = .num r) :
+    r.k = .int ∧ WF r ∧ ∃ z : Int, toRat r.d = (z : Rat) := by
+  have hk := (kind_rule op x y r h).2 ⟨kx, ky⟩
+  have he : 0 ≤ r.d.exp := by
+    rw [(numOp_eq op x y r h).1]
+    exact Int.le_trans (exact_exp_nonneg op _ _ (hx kx) (hy ky)) (round_exp_ge _ _)
+  refine ⟨hk, fun _ => he, Dec.shift r.d 0, ?_⟩
+  rw [toRat_shift r.d 0 he]
+  simp
+
 
 /-- the full statements (no digit hypothesis) are false: witnesses -/
 def mul_exact_stmt : Prop :=
@@ -71,32 +508,30 @@ def sub_exact_stmt : Prop :=
   ∀ x y r : Num, numOp .sub x y = .num r → toRat r.d = toRat x.d - toRat y.d
 
 /-- `100000000000000000001 * 100000000000000000001` -/
-theorem mul_exact_false : ¬ mul_exact_stmt := by sorry
+theorem mul_exact_false : ¬ mul_exact_stmt := by
+  intro h
+  have h1 := h ⟨.int, ⟨100000000000000000001, 0⟩⟩ ⟨.int, ⟨100000000000000000001, 0⟩⟩
+    ⟨.int, ⟨1000000000000000000020000000000000, 7⟩⟩ (by decide)
+  rw [← toRat_mul, ← cmp_eq_iff] at h1
+  revert h1
+  decide
+
+
 /-- `12345678901234567890123456789012345678901234567890 + 1` -/
-theorem add_exact_false : ¬ add_exact_stmt := by sorry
+theorem add_exact_false : ¬ add_exact_stmt := by
+  intro h
+  have h1 := h ⟨.int, ⟨12345678901234567890123456789012345678901234567890, 0⟩⟩ ⟨.int, ⟨1, 0⟩⟩
+    ⟨.int, ⟨1234567890123456789012345678901235, 16⟩⟩ (by decide)
+  rw [← toRat_add, ← cmp_eq_iff] at h1
+  revert h1
+  decide
+
 /-- `12345678901234567890123456789012345678901234567890 - 1` -/
-theorem sub_exact_false : ¬ sub_exact_stmt := by sorry
-
-/-- result kind: int exactly when both operands are ints -/
-theorem kind_rule (op : AOp) (x y r : Num) (h : numOp op x y = .num r) :
-    (r.k = .int ↔ (x.k = .int ∧ y.k = .int)) := by sorry
-
-/-- int op int is an int: kind int, non-negative exponent (so `WF`), integral value -/
-theorem int_closed (op : AOp) (x y r : Num) (hx : WF x) (hy : WF y)
-    (kx : x.k = .int) (ky : y.k = .int) (h : numOp op x y = .num r) :
-    r.k = .int ∧ WF r ∧ ∃ z : Int, toRat r.d = (z : Rat) := by sorry
-
-/-- comparison of numbers is comparison of the exact values, whatever the kinds -/
-theorem cmp_num (op : COp) (x y : Num) :
-    cmpOp op (.num x) (.num y) = .bool (specCmp (cop op) (toRat x.d) (toRat y.d)) := by sorry
-
-/-! #### bytewise order on strings and bytes -/
-
-theorem bytesCmp_eq_iff (a b : List Nat) : bytesCmp a b = .eq ↔ a = b := by sorry
-theorem bytesCmp_swap (a b : List Nat) : bytesCmp a b = .lt ↔ bytesCmp b a = .gt := by sorry
-theorem bytesCmp_trans (a b c : List Nat) (h1 : bytesCmp a b = .lt) (h2 : bytesCmp b c = .lt) :
-    bytesCmp a c = .lt := by sorry
-/-- it is the lexicographic order of the byte sequences -/
-theorem bytesCmp_lt_iff (a b : List Nat) : bytesCmp a b = .lt ↔ a < b := by sorry
-
+theorem sub_exact_false : ¬ sub_exact_stmt := by
+  intro h
+  have h1 := h ⟨.int, ⟨12345678901234567890123456789012345678901234567890, 0⟩⟩ ⟨.int, ⟨1, 0⟩⟩
+    ⟨.int, ⟨1234567890123456789012345678901235, 16⟩⟩ (by decide)
+  rw [← toRat_sub, ← cmp_eq_iff] at h1
+  revert h1
+  decide
 end CueVerif.Proofs.ArithExact
